@@ -212,7 +212,7 @@ def run_py(f, args):
 def real_fn(pyname):
     import tsdate.approx
     import tsdate.hypergeo
-    m = tsdate.approx if info()["meta"][pyname]["module"] == "approx" else tsdate.hypergeo
+    m = tsdate.approx if hasattr(tsdate.approx, pyname) else tsdate.hypergeo
     return getattr(m, pyname)
 
 
